@@ -115,6 +115,12 @@ def run_case(ctx, rep, case, base_dir, model_ok):
                     specs[ai] = {"kind": "expire", "cutoff": md0["snapshots"][1]["timestamp_ms"] + (1 if case["clock"] != "frozen" else 0)}
                 elif kind == "delfiles":
                     specs[ai] = {"kind": "delfiles", "path": "/" + init_files[(ai - 1) % len(init_files)]}
+            if case.get("drop_hint"):       # the pointer object is lost before the committers start: both recover the version by listing
+                if env is not None:
+                    for k_ in [k_ for k_ in env.fake.objects if k_.endswith("metadata.version-hint.text")]:
+                        del env.fake.objects[k_]
+                else:
+                    os.remove(os.path.join(path, "metadata.version-hint.text"))
             chooser = case["chooser"](rng) if callable(case.get("chooser")) else sched.random_chooser(rng, 0.55)
             S = sched.Sched(chooser, watchdog_s=40)
             clock.on_now = lambda ms: S.record("clock", ms)
@@ -144,6 +150,37 @@ def run_case(ctx, rep, case, base_dir, model_ok):
                                 o.mtime = o.mtime - _dt.timedelta(seconds=120)
                     return _inner(s, ready)
                 S.chooser = chooser
+            # fence oracle (C08, sentence 2): who wrote the lock object last, by ACTOR (not by the id stored in it); a committer that looks
+            # at the lock while it believes it holds it and the object is somebody else's has lost its lock — it must not flip the pointer
+            lost_then_flipped = []
+            if env is not None and case.get("lock") in ("real", "takeover") and case["topology"] != "shared":
+                lockstate = {"owner": None, "stale": set()}
+
+                def s3hook(phase, op, key, kw):
+                    if phase != "after" or not key.endswith(".locks/metadata.lock"):
+                        return
+                    a = S.actor()
+                    if op == "put":
+                        lockstate["owner"] = a
+                        lockstate["stale"].discard(a)
+                    elif op == "delete":
+                        lockstate["owner"] = None
+                    elif op == "get" and a in handles and getattr(handles[a].metadata_manager.lock_provider, "is_locked", False) \
+                            and lockstate["owner"] not in (a, None):
+                        lockstate["stale"].add(a)
+                env.fake.hook = s3hook
+                for ai in handles:
+                    st_ = handles[ai].storage
+                    for mth in ("write_file", "write_file_cas"):
+                        if hasattr(st_, mth):
+                            o_ = getattr(st_, mth)
+
+                            def w_(p_, *a_, _o=o_, _ai=ai, **k_):
+                                r_ = _o(p_, *a_, **k_)
+                                if str(p_).lstrip("/") == "metadata.version-hint.text" and _ai in lockstate["stale"]:
+                                    lost_then_flipped.append(_ai)
+                                return r_
+                            setattr(st_, mth, w_)
             restore = _patch_sleep(S)
             try:
                 with _NoBackoff(S):
@@ -162,7 +199,7 @@ def run_case(ctx, rep, case, base_dir, model_ok):
             if len([a for a in S.schedule]) and len(set(S.schedule[i] != S.schedule[i + 1] for i in range(len(S.schedule) - 1))) > 1:
                 rep.nontrivial(["c01", case_rec["schedule"], case_rec["txs"], backend, case["clock"]])
             # ---------------- correspondence: abstract trace accepted by the model
-            if model_ok:
+            if model_ok and not case.get("no_model"):
                 ab = occtrace.Abstractor(p0[1], md0)
                 toks = occtrace.render(ab.abstract(S.events, backend == "s3cas"), md0["last_updated_ms"])
                 kinds = ",".join(f"{ai}:{'s' if specs[ai]['kind'] in ('append', 'delfiles') else 'm'}" for ai in sorted(specs))
@@ -183,6 +220,8 @@ def run_case(ctx, rep, case, base_dir, model_ok):
             final_rows = v["rows"]
             final_snaps = {s["id"] for s in v["snaps"]}
             problems = []
+            for ai in lost_then_flipped:
+                problems.append(f"lost-lock: actor {ai} saw the lock object owned by another committer while believing it held the lock, and went on to flip the pointer")
             for ai, sp in specs.items():
                 ok = acks[ai]
                 if sp["kind"] == "append":
@@ -234,6 +273,8 @@ def run_case(ctx, rep, case, base_dir, model_ok):
                 sig = "C01:" + ("lost-update" if "not reflected" in pr or "missing" in pr else "anomaly") + ":" + pr.split(" of actor")[0].replace(" ", "-")
                 if "not reflected" in pr and case["clock"] in ("frozen", "coarse") and all(specs[a]["kind"] in ("delsnap", "expire") for a in specs):
                     sig = "C01:metadata-only-commits-equal-millisecond-stale-base"
+                if pr.startswith("lost-lock"):
+                    sig = "C08:committer-that-lost-its-lock-flipped-the-pointer"
                 rep.violate(sig, f"{backend}/{case['topology']}/{case['clock']} clock, txs {case_rec['txs']}: {pr}", case_rec)
     finally:
         if env:
